@@ -39,6 +39,10 @@ def run(rep):
                     "each must parse without error and show `Identifier t.<sp>` / `Literal UInt64_1 (alias <sp>)` / `TableIdentifier t (alias <sp>)` with the user's spelling; distinct_nontrivial = naming probes",
             "samples": [l for l in lines[200:204]], "keywords": int(nums.get("keywords", 0)), "exhaustive": True, "trusted_base": TRUSTED,
         })
+    import searchcommon
+    b2, summ = searchcommon.run_selectcore(rep, 3000 if rep.tier == "quick" else 40000)
+    broken += b2
+    rep.coverage["selectcore_correspondence"] = summ
     verif.report_broken(rep, broken, found)
     rep.assumptions = []
 
